@@ -18,6 +18,7 @@ TECHNIQUE = 'property-based testing (Hypothesis) with fault injection: generated
 RULE = ('cases = generated mapping inputs x directory and file names with punctuation (commas, quotes, brackets, =, ;, :) x outcome class '
         '(success, missing/garbled query|stats|marker file, stats file lacking a dataset, bad normalisation, negative counts, marker unknown to the reference, injected worker failure) '
         'x with/without separate log file; non-trivial = the twin run with cloud_safe=False did expose a sensitive root in its recorded config/log; distinct = distinct spec hash')
+RULE += '; failure classes include unwritable destinations and file names longer than 255 bytes'
 ASSUMPTIONS = ['sensitive roots = the per-case sandbox root (contains inputs, outputs and scratch), the parent of the package directory, sys.prefix, sys.base_prefix',
                'file and directory names contain no white space (as in the quantifier)']
 
